@@ -172,6 +172,32 @@ func (e *regEnv) snapObs(code int64, extra func(b *Obs)) string {
 	return b.String()
 }
 
+// envKeys: the environment as the system machine of ModelSys.v sees it — the tables with their members in
+// seating order, the players in transit (sorted), the number of living players; "sysreg" is the model's own
+// consistency flag (its regulator stepped with the tables equals the regulator stepped alone)
+func (e *regEnv) envLine() {
+	var b Obs
+	var envt, envtr []int64
+	for _, id := range e.tableIDs() {
+		envt = append(envt, int64(id), int64(len(e.tables[id])))
+		for _, p := range e.tables[id] {
+			envt = append(envt, int64(p))
+		}
+	}
+	alive := 0
+	for p, w := range e.where {
+		if w == -2 {
+			envtr = append(envtr, int64(p))
+		}
+		if w != -1 {
+			alive++
+		}
+	}
+	sort.Slice(envtr, func(i, j int) bool { return envtr[i] < envtr[j] })
+	b.K("envt", envt...).K("envtr", envtr...).K("enval", int64(alive)).K("sysreg", 1)
+	e.o.Line("reg-env", b.String())
+}
+
 func snapKey(r reg.Regulator) string {
 	s := reg.VerifSnap(r)
 	sort.Slice(s.Tables, func(i, j int) bool { return s.Tables[i].ID < s.Tables[j].ID })
@@ -285,6 +311,7 @@ func (e *regEnv) add(k int) {
 	}
 	e.o.Line("reg-add "+ints(e.withChoices(nums...)...), e.snapObs(code, nil))
 	e.checkInv("AddPlayers")
+	e.envLine()
 }
 
 func (e *regEnv) setStatus(s int) {
@@ -293,6 +320,7 @@ func (e *regEnv) setStatus(s int) {
 	e.r.SetStatus(reg.CompetitionStatus(s))
 	e.o.Line("reg-status "+ints(e.withChoices(int64(s))...), e.snapObs(0, nil))
 	e.checkInv("SetStatus")
+	e.envLine()
 }
 
 func (e *regEnv) releaseTransit(id int) {
@@ -318,6 +346,7 @@ func (e *regEnv) releaseTransit(id int) {
 		}
 	}
 	e.checkInv("ReleasePlayers")
+	e.envLine()
 }
 
 // sync returns true when the table was changed in any way (release, top-up or break)
@@ -343,7 +372,9 @@ func (e *regEnv) sync(id int, out int) bool {
 	if out > len(ps) {
 		out = len(ps)
 	}
+	elim := ""
 	for i := 0; i < out; i++ {
+		elim += fmt.Sprintf(" %d", ps[len(ps)-1])
 		e.where[ps[len(ps)-1]] = -1
 		ps = ps[:len(ps)-1]
 	}
@@ -353,14 +384,14 @@ func (e *regEnv) sync(id int, out int) bool {
 	rel, np, err := e.r.SyncState(tid, out)
 	if err != nil {
 		e.o.Violate("C09", "sync-known-table-refused", fmt.Sprintf("err=%v", err), e.replay())
-		e.o.Line(fmt.Sprintf("reg-sync %d %d", id, out), e.snapObs(7, func(b *Obs) { b.K("release", 0).K("handed") }))
+		e.o.Line(fmt.Sprintf("reg-sync %d %d%s", id, out, elim), e.snapObs(7, func(b *Obs) { b.K("release", 0).K("handed") }))
 		return false
 	}
 	var handed []int64
 	for _, p := range np {
 		handed = append(handed, int64(pnum(p)))
 	}
-	e.o.Line(fmt.Sprintf("reg-sync %d %d", id, out), e.snapObs(0, func(b *Obs) { b.K("release", int64(rel)).K("handed", handed...) }))
+	e.o.Line(fmt.Sprintf("reg-sync %d %d%s", id, out, elim), e.snapObs(0, func(b *Obs) { b.K("release", int64(rel)).K("handed", handed...) }))
 	e.handOut(np, id, "sync-top-up")
 	if len(np) > 0 && len(e.tables[id]) > e.c.Max {
 		e.o.Violate("C19", "over-capacity:sync-top-up", fmt.Sprintf("SyncState tops table %s up to %d players, max %d", tid, len(e.tables[id]), e.c.Max), e.replay())
@@ -375,8 +406,8 @@ func (e *regEnv) sync(id int, out int) bool {
 		rel = 0
 	}
 	cur := e.tables[id]
-	relps := append([]int{}, cur[len(cur)-rel:]...)
-	e.tables[id] = cur[:len(cur)-rel]
+	relps := append([]int{}, cur[:rel]...) // the first rel of (kept ++ handed): the policy of ModelSys.sys_step
+	e.tables[id] = append([]int{}, cur[rel:]...)
 	if broken {
 		if len(e.tables[id]) != 0 {
 			e.o.Violate("C20", "broken-table-keeps-players", fmt.Sprintf("t%d told to break, releases %d of %d", id, rel, len(cur)), e.replay())
@@ -391,6 +422,7 @@ func (e *regEnv) sync(id int, out int) bool {
 	}
 	e.transit[id] = append(e.transit[id], relps...)
 	e.checkInv("SyncState")
+	e.envLine()
 	if !e.c.Delay {
 		e.releaseTransit(id)
 	}
